@@ -34,7 +34,11 @@ RULE = ('three real simulators on the same (block, initial registers/memories, i
         '(1) limb-sweep designs: every primitive op at operand widths 63,64,65,127,128,129 (+ mixed-width '
         'concats whose pieces straddle 64-bit limbs, strided/reversed selects across limbs, wide registers '
         'and memories, raw LogicNets with truncating destinations so that every mask branch of both code '
-        'generators is reached); (2) random API-built designs (gen_designs, probe Outputs on every internal '
+        'generators is reached); (1b) hash-map designs: one MemBlock with addrwidth 9/12/16/33 and 65..129-bit data whose '
+        'initial map and run-time writes use addresses k, k+256, k+512, k+2^32 (one bucket of the 256-bucket C hash map), '
+        'inserted in different cycles in a shuffled order, a disabled write to a further colliding key, overwrites inside '
+        'and at the end of a chain, read-back of every address in several orders on two read ports, final inspect_mem at '
+        'every touched address and untouched neighbours; (2) random API-built designs (gen_designs, probe Outputs on every internal '
         'wire; alternately wide_prob 0.55 and small ones cheap enough to synthesize) plus a few raw truncating '
         'nets; each also optimized and, when its gate count allows, synthesized (merge_io_vectors True/False); a case = '
         '(block variant, stimulus), distinct by hash of its Simulation trace, non-trivial when at least '
